@@ -87,7 +87,7 @@ try:
         open(evf, "w").write(ev_saved)
     os.makedirs(os.path.join(V, "seeded", name), exist_ok=True)
     for fn in sorted(set(os.listdir(os.path.join(V, "replays"))) - before):
-        if fn.endswith(".json"):
+        if fn.endswith(".json") and fn.startswith(pid + "-"):
             shutil.move(os.path.join(V, "replays", fn), os.path.join(V, "seeded", name, "replay-" + fn))
     meta["caught"] = any(d["exit"] == 1 for d in detected.values())
 finally:
